@@ -1147,6 +1147,26 @@ def structural_recursion(facts, fn, names):
     return True
 
 
+def _borrowing_accessor(facts, name, args):
+    """`x.name()` can only hand out parts of x: a transparent std view, or a crate method (&self, no other argument) whose
+    return type is made of references only."""
+    if args:
+        return False
+    if name in ("as_ref", "deref", "borrow", "as_deref", "as_slice", "iter"):
+        return True
+    cands = [f_ for f_ in facts.fns.values() if f_.name == name and f_.impl is not None and not f_.test]
+    if not cands:
+        return False
+    for f_ in cands:
+        out = norm_ty(f_.node.get("output") or "")
+        if f_.node.get("self") != "&self" or [n_ for n_, _ in f_.params if n_ != "self"]:
+            return False
+        leaves = [x for x in re.split(r"[(),<>]|Option|Vec|Box", out) if x]
+        if not leaves or not all(x.startswith("&") and not x.startswith("&mut") for x in leaves):
+            return False
+    return True
+
+
 def descent_cycle(facts, owners):
     """A recursion cycle over the expression tree is well founded when every call inside it hands on either a strict
     sub-term of the caller's own input (a variable bound by destructuring, or a literal slice of such variables) or the
@@ -1167,6 +1187,29 @@ def descent_cycle(facts, owners):
         for st in find_all(f.body, lambda n: n.get("k") in ("let", "letexpr")):
             if st["pat"]["k"] in ("tstruct", "struct", "or"):
                 bound |= set(rx.pat_bindings(st["pat"]))
+        # parts handed out by an accessor: `let (a, b) = x.parts();` with x a strict sub-term and `parts(&self)` returning
+        # references only — by lifetime elision they borrow from x, so they are sub-terms of x
+        changed = True
+        while changed:
+            changed = False
+            for st in find_all(f.body, lambda n: n.get("k") == "let" and n.get("init") is not None):
+                base, chain = rx.method_chain(rx.peel(st["init"]))
+                if rx.var_name(base) in bound and chain and all(_borrowing_accessor(facts, mm, args_) for mm, args_, _ in chain):
+                    new_ = set(rx.pat_bindings(st["pat"])) - bound
+                    if new_:
+                        bound |= new_
+                        changed = True
+            # closure parameters of Option / iterator adaptors applied to a sub-term: the payload is a sub-term too
+            for mc in find_all(f.body, lambda n: n.get("k") == "mcall" and n["m"] in ("is_some_and", "is_none_or", "map", "map_or", "and_then", "any", "all", "for_each", "filter", "find") and n["args"] and n["args"][-1].get("k") == "closure"):
+                base, chain = rx.method_chain(rx.peel(mc["recv"]))
+                if rx.var_name(base) in bound and all(mm in ("iter", "into_iter", "as_ref", "as_deref", "copied", "cloned") for mm, _, _ in chain):
+                    new_ = set()
+                    for p_ in mc["args"][-1]["params"]:
+                        new_ |= set(rx.pat_bindings(p_))
+                    new_ -= bound
+                    if new_:
+                        bound |= new_
+                        changed = True
         for lp in find_all(f.body, lambda n: n.get("k") == "for"):
             base, chain = rx.method_chain(rx.peel(lp["iter"]))
             if rx.var_name(base) in same and all(mm in ("iter", "into_iter", "as_ref", "as_slice") for mm, _, _ in chain):
